@@ -393,6 +393,21 @@ func runC17(p *core.Program, r *core.Report) {
 	emitLockset(res, r, map[string]bool{"AT1": true, "AT2": true}, map[string]bool{"cache": true})
 	expiryAgreement(p, r, p.FuncsInFiles("cache/cache.go"))
 	cacheSetRule(p, r)
+	// the constructor hands its two durations to the cache in their order
+	if nm := p.Func("gogu.NewMemoizer"); nm != nil && len(nm.Params) == 2 {
+		for _, in := range path.Instrs(nm) {
+			call, ok := in.(*ssa.Call)
+			if !ok || !path.IsCallTo(call, cachePkg(p), "New") {
+				continue
+			}
+			a := call.Call.Args
+			okA := len(a) == 2 && a[0] == ssa.Value(nm.Params[0]) && a[1] == ssa.Value(nm.Params[1])
+			r.Obligation("PV2", okA, map[string]any{"rule": "PV2", "function": "gogu.NewMemoizer", "what": "expiration and cleanup interval handed on in order", "ok": okA})
+			if !okA {
+				r.Violation(core.Diag{Rule: "PV2", Func: "gogu.NewMemoizer", Object: "cache configuration", Pos: p.InstrPos(call), Reason: "cache.New must receive NewMemoizer's expiration and cleanup arguments in that order: otherwise cached results live for the cleanup interval"})
+			}
+		}
+	}
 	r.Floor("AG1", 3)
 	r.Floor("PT3", 2)
 	r.Floor("PV2", 3)
